@@ -134,12 +134,13 @@ def iterNext : Nat → List (PageVisit K V D) → Except String (Option (K × V)
           else .error "node_iter.rs:112"
 
 mutual
-def Pg.pages : Pg K V D → Nat
+/-- number of pages plus number of nodes in the subtree -/
+def Pg.size : Pg K V D → Nat
   | .none => 0
-  | .some _ _ n h => 1 + n.pages + h.pages
-def Nd.pages : Nd K V D → Nat
+  | .some _ _ n h => 1 + n.size + h.size
+def Nd.size : Nd K V D → Nat
   | .nil => 0
-  | .cons lt _ _ tl => lt.pages + 1 + tl.pages
+  | .cons lt _ _ tl => lt.size + 1 + tl.size
 end
 
 /-- Drain the iterator. -/
@@ -156,7 +157,7 @@ def iterAll (root : Pg K V D) : Except String (List (K × V)) :=
   match pageVisitOf root with
   | .none => .ok []
   | .some pv =>
-    let n := 2 * root.pages + 2
+    let n := 2 * root.size + 2
     iterAllGo n n [pv] []
 
 /-! ### Page ranges -/
